@@ -245,7 +245,7 @@ def guarded(t, junk, rng):
 # ------------------------------------------------------------------------------------------------ cases
 def gen_cases(tier, seed):
     i = 0
-    reps = 3 if tier == "quick" else 8
+    reps = 6 if tier == "quick" else 10
     for r in range(reps):
         for k, name in enumerate(FUNCTION_NAMES):
             for variant in range(2 if tier == "quick" else 3):
